@@ -25,6 +25,11 @@ macro_rules! impl_backend {
             fn set_event_idx(&self, enabled: bool) { vgm::vg().event_idx = enabled; vgm::vg().event_idx_calls += 1; }
             fn update_memory(&self, _mem: GM<()>) -> Result<()> { Ok(()) }
             fn queues_per_thread(&self) -> Vec<u64> { vec![1] }
+            fn set_backend_req_fd(&self, backend: vhost::vhost_user::Backend) {
+                // keep the channel the daemon hands over: the harness drives it afterwards
+                // SAFETY: single-threaded harness
+                unsafe { BREQ.0 = Some(backend) };
+            }
             fn handle_event(&self, device_event: u16, _evset: EventSet, vrings: &[Self::Vring], thread_id: usize) -> Result<()> {
                 // schedule point W2 (worker read the kick, handler not yet entered): a nested control message
                 crate::handler::verif::nested_control();
@@ -45,6 +50,8 @@ macro_rules! impl_backend {
         }
     };
 }
+/// the backend-request channel last handed to a recording backend
+pub(crate) static mut BREQ: (Option<vhost::vhost_user::Backend>, u64) = (None, 0x6272_6571_5f63_6831);
 impl_backend!(VB, VringMutex<GM<()>>, vr::ring_id_mutex);
 impl_backend!(VBR, VringRwLock<GM<()>>, vr::ring_id_rwlock);
 
